@@ -19,12 +19,26 @@ Local Open Scope Z_scope.
    r_obs: the action only observes shared state (a load, a failed compare-exchange, a hidden read): such an action, when
    enabled, is taken before an enabled action that writes (the recorder's stamp is taken after the operation, so a read can
    be stamped after the write that overwrote what it saw; taking an enabled observation early is always a legal
-   linearisation: it changes nothing but the thread's own program point) *)
-Record ract := { r_tid : Z; r_code : Z; r_arg : Z; r_ev : event; r_look : bool; r_next : event; r_id : Z; r_obs : bool }.
+   linearisation: it changes nothing but the thread's own program point);
+   r_word / r_widx: when r_word <> 0 the action writes the shared word number r_word and r_widx identifies its pair
+   (old value -> new value); the caller gives, per word, the sequence of such labels along the exact old->new chain it
+   reconstructed, and the scheduler takes a write only when its label is the next one of its word (writes with the same label
+   are interchangeable; this only restricts the scheduler's choices) *)
+Record ract := { r_tid : Z; r_code : Z; r_arg : Z; r_ev : event; r_look : bool; r_next : event; r_id : Z; r_obs : bool;
+                 r_word : Z; r_widx : Z }.
 
 (* hook events that only observe: loads and failed compare-exchanges *)
 Definition ev_obs (e : event) : bool :=
   (ek e =? DV_LOAD) || (((ek e =? DV_CAS) || (ek e =? DV_CASW)) && negb (eok e =? 1)).
+
+(* per word: the labels (an identifier of the pair old value -> new value) of its remaining writes, in chain order *)
+Fixpoint wnext (w : Z) (c : list (Z * list Z)) : option Z :=
+  match c with [] => None | (k, l) :: r => if k =? w then (match l with x :: _ => Some x | [] => None end) else wnext w r end.
+Fixpoint wpop (w : Z) (c : list (Z * list Z)) : list (Z * list Z) :=
+  match c with [] => [] | (k, l) :: r => if k =? w then (k, tl l) :: r else (k, l) :: wpop w r end.
+Definition eligible (c : list (Z * list Z)) (a : ract) : bool :=
+  (r_word a =? 0) || match wnext (r_word a) c with Some x => x =? r_widx a | None => true end.
+Definition bump (c : list (Z * list Z)) (a : ract) : list (Z * list Z) := if r_word a =? 0 then c else wpop (r_word a) c.
 
 Section Replay.
   Context {S : Type}.
@@ -48,17 +62,18 @@ Section Replay.
   (* scan the remaining order: actions of threads already tried in this scan are passed over (program order); at most w
      distinct threads are tried and at most d entries are looked at (stamp inversions are local: an action far ahead in the
      recording is not taken while nearer ones are only waiting for each other).  Result: the enabled next actions, each with the state after it and the order without it *)
-  Fixpoint gather (s : S) (ord : list ract) (tried : list Z) (w : nat) (d : nat) (passed : list ract) : list (ract * S * list ract) :=
+  Fixpoint gather (c : list (Z * list Z)) (s : S) (ord : list ract) (tried : list Z) (w : nat) (d : nat) (passed : list ract)
+      : list (ract * S * list ract) :=
     match ord, d with
     | [], _ | _, O => []
     | a :: r, Datatypes.S d' =>
-        if existsb (Z.eqb (r_tid a)) tried then gather s r tried w d' (a :: passed)
+        if existsb (Z.eqb (r_tid a)) tried then gather c s r tried w d' (a :: passed)
         else match w with
              | O => []
              | Datatypes.S w' =>
-                 match try_act s a with
-                 | Some s' => (a, s', rev_append passed r) :: gather s r (r_tid a :: tried) w' d' (a :: passed)
-                 | None => gather s r (r_tid a :: tried) w' d' (a :: passed)
+                 match (if eligible c a then try_act s a else None) with
+                 | Some s' => (a, s', rev_append passed r) :: gather c s r (r_tid a :: tried) w' d' (a :: passed)
+                 | None => gather c s r (r_tid a :: tried) w' d' (a :: passed)
                  end
              end
     end.
@@ -73,30 +88,30 @@ Section Replay.
     | Datatypes.S f => match find (must_precede cur) cands with Some c => refine f c cands | None => cur end
     end.
   (* the first enabled observation wins; otherwise the first enabled action, refined by must_precede *)
-  Definition pick1 (s : S) (ord : list ract) (w d : nat) : option (S * list ract) :=
-    let cands := gather s ord [] w d [] in
-    match find (fun c => r_obs (fst (fst c))) cands with
-    | Some (_, s', o) => Some (s', o)
+  Definition pick1 (c : list (Z * list Z)) (s : S) (ord : list ract) (w d : nat) : option (ract * S * list ract) :=
+    let cands := gather c s ord [] w d [] in
+    match find (fun x => r_obs (fst (fst x))) cands with
+    | Some x => Some x
     | None => match cands with
               | [] => None
-              | c1 :: _ => let '(_, s', o) := refine (length cands) c1 cands in Some (s', o)
+              | c1 :: _ => Some (refine (length cands) c1 cands)
               end
     end.
   (* look ahead a little; only when nothing is enabled there, further *)
-  Fixpoint pick (s : S) (ord : list ract) (w : nat) (depths : list nat) : option (S * list ract) :=
+  Fixpoint pick (c : list (Z * list Z)) (s : S) (ord : list ract) (w : nat) (depths : list nat) : option (ract * S * list ract) :=
     match depths with
     | [] => None
-    | d :: ds => match pick1 s ord w d with Some r => Some r | None => pick s ord w ds end
+    | d :: ds => match pick1 c s ord w d with Some r => Some r | None => pick c s ord w ds end
     end.
 
-  Fixpoint sched (fuel : nat) (w : nat) (depths : list nat) (s : S) (ord : list ract) (done : Z) : S * Z * list ract :=
+  Fixpoint sched (fuel : nat) (w : nat) (depths : list nat) (c : list (Z * list Z)) (s : S) (ord : list ract) (done : Z) : S * Z * list ract :=
     match fuel with
     | O => (s, done, ord)
     | Datatypes.S f =>
         match ord with
         | [] => (s, done, [])
-        | _ => match pick s ord w depths with
-               | Some (s', ord') => sched f w depths s' ord' (done + 1)
+        | _ => match pick c s ord w depths with
+               | Some (a, s', ord') => sched f w depths (bump c a) s' ord' (done + 1)
                | None => (s, done, ord)
                end
         end
@@ -114,45 +129,47 @@ Section Replay.
       intros H. injection H as <-. exists (r_tid a, e). split; assumption.
   Qed.
 
-  Lemma gather_step s : forall ord tried w d passed c, In c (gather s ord tried w d passed) -> exists act, rstep s act (snd (fst c)).
+  Lemma gather_step c s : forall ord tried w d passed x, In x (gather c s ord tried w d passed) -> exists act, rstep s act (snd (fst x)).
   Proof.
-    induction ord as [|a r IH]; intros tried w d passed c H; destruct d as [|d']; cbn [gather] in H; try contradiction.
+    induction ord as [|a r IH]; intros tried w d passed x H; destruct d as [|d']; cbn [gather] in H; try contradiction.
     destruct (existsb (Z.eqb (r_tid a)) tried); [eapply IH; exact H|].
     destruct w as [|w']; [contradiction|].
+    destruct (eligible c a); [|eapply IH; exact H].
     destruct (try_act s a) as [s1|] eqn:T; [|eapply IH; exact H].
     destruct H as [<-|H]; [cbn; eapply try_act_step; exact T|eapply IH; exact H].
   Qed.
   Lemma refine_in cands : forall fuel cur, In cur cands -> In (refine fuel cur cands) cands.
   Proof.
     induction fuel as [|f IH]; intros cur H; cbn [refine]; [exact H|].
-    destruct (find (must_precede cur) cands) as [c|] eqn:F; [|exact H]. apply IH. apply (find_some _ _ F).
+    destruct (find (must_precede cur) cands) as [x|] eqn:F; [|exact H]. apply IH. apply (find_some _ _ F).
   Qed.
-  Lemma pick1_step s ord w d s' ord' : pick1 s ord w d = Some (s', ord') -> exists act, rstep s act s'.
+  Lemma pick1_step c s ord w d a s' ord' : pick1 c s ord w d = Some (a, s', ord') -> exists act, rstep s act s'.
   Proof.
-    unfold pick1. set (cands := gather s ord [] w d []).
-    destruct (find (fun c => r_obs (fst (fst c))) cands) as [[[a1 s1] o1]|] eqn:F.
-    - intros H. injection H as <- _. apply find_some in F. destruct F as [F _].
-      apply (gather_step s ord [] w d [] _ F).
+    unfold pick1. set (cands := gather c s ord [] w d []).
+    destruct (find (fun x => r_obs (fst (fst x))) cands) as [x|] eqn:F.
+    - intros H. injection H as ->. apply find_some in F. destruct F as [F _].
+      apply (gather_step c s ord [] w d [] _ F).
     - destruct cands as [|c1 rest] eqn:C; [discriminate|].
       pose proof (refine_in (c1 :: rest) (length (c1 :: rest)) c1 (or_introl eq_refl)) as R.
-      destruct (refine (length (c1 :: rest)) c1 (c1 :: rest)) as [[a2 s2] o2]. intros H. injection H as <- _.
-      rewrite <- C in R. apply (gather_step s ord [] w d [] _ R).
+      intros H. injection H as H.
+      assert (R' : In (a, s', ord') (c1 :: rest)) by (rewrite <- H; exact R).
+      rewrite <- C in R'. apply (gather_step c s ord [] w d [] _ R').
   Qed.
-  Lemma pick_step s ord w : forall depths s' ord', pick s ord w depths = Some (s', ord') -> exists act, rstep s act s'.
+  Lemma pick_step c s ord w : forall depths a s' ord', pick c s ord w depths = Some (a, s', ord') -> exists act, rstep s act s'.
   Proof.
-    induction depths as [|d ds IH]; intros s' ord' H; cbn [pick] in H; [discriminate|].
-    destruct (pick1 s ord w d) as [[s1 o1]|] eqn:P; [|eapply IH; exact H].
-    injection H as <- _. eapply pick1_step; exact P.
+    induction depths as [|d ds IH]; intros a s' ord' H; cbn [pick] in H; [discriminate|].
+    destruct (pick1 c s ord w d) as [[[a1 s1] o1]|] eqn:P; [|eapply IH; exact H].
+    injection H as <- <- <-. eapply pick1_step; exact P.
   Qed.
 
-  Theorem sched_reach (init : S -> Prop) : forall fuel w depths s ord done s' done' rest,
-    reachable init rstep s -> sched fuel w depths s ord done = (s', done', rest) -> reachable init rstep s'.
+  Theorem sched_reach (init : S -> Prop) : forall fuel w depths c s ord done s' done' rest,
+    reachable init rstep s -> sched fuel w depths c s ord done = (s', done', rest) -> reachable init rstep s'.
   Proof.
-    induction fuel as [|f IH]; intros w depths s ord done s' done' rest R H; cbn [sched] in H.
+    induction fuel as [|f IH]; intros w depths c s ord done s' done' rest R H; cbn [sched] in H.
     - injection H as <- _ _. exact R.
     - destruct ord as [|a r]; [injection H as <- _ _; exact R|].
-      destruct (pick s (a :: r) w depths) as [[s1 ord1]|] eqn:P.
-      + destruct (pick_step s _ _ _ _ _ P) as (act & St). eapply IH; [|exact H]. eapply reach_step; eauto.
+      destruct (pick c s (a :: r) w depths) as [[[a1 s1] ord1]|] eqn:P.
+      + destruct (pick_step c s _ _ _ _ _ _ P) as (act & St). eapply IH; [|exact H]. eapply reach_step; eauto.
       + injection H as <- _ _. exact R.
   Qed.
 End Replay.
